@@ -20,12 +20,12 @@ SCALE = 2 ** 40
 TOL = 512  # units of 2^-40  (4.7e-10); model inputs are rounded to the grid, <= 0.5 unit each
 ATOL = 1e-9  # implementation-vs-implementation agreements
 THEOREMS = {
-    "slp": ["c07_slp_tensor_correct", "c07_slp_col_correct"],
-    "ps": ["c07_slp_packed_correct", "c07_slp_packed_eq_padded"],
-    "walk": ["c07_walk_stops_at_first_eos_or_limit", "c07_walk_logp_is_chain", "c07_walk_shape"],
-    "dist": ["c07_dist_logprob_eq_walk_logp", "c07_support_mass_one", "c07_samples_in_support",
-             "c07_support_characterised"],
-    "greedy": ["c07_greedy_is_collapse_of_argmax", "c07_greedy_score"],
+    "slp": ["c07_slp_col_correct", "c07_slp_tensor_correct", "c07_slp_tensor_error", "c07_lens_from_eos"],
+    "ps": ["c07_slp_packed_correct", "c07_slp_packed_sorted", "c07_slp_packed_eq_padded"],
+    "walk": ["c07_walk_correct", "c07_dist_logprob_eq_walk_logp"],
+    "dist": ["c07_dist_log_prob_spec", "c07_dist_logprob_eq_walk_logp", "c07_padding_keeps_score", "c07_support_characterised",
+             "c07_support_nodup", "c07_support_mass_one", "c07_samples_in_support"],
+    "greedy": ["c07_greedy_argmax", "c07_greedy_correct", "c07_greedy_error"],
 }
 
 
@@ -195,6 +195,8 @@ def ps_eval(case):
     res["terms"].append(("model", f"check_slp_ps {cz(TOL)} {cz(V)} {lz(data)} {ln(bs)} {co(ln(sidx)) if sidx is not None else 'None'} "
                                   f"{co(ln(uidx)) if uidx is not None else 'None'} {cn(N)} {lz(hyp.tolist())} {lz(impl)}"))
     ls = lg.log_softmax(-1)
+    res["terms"].append(("model_pack", f"check_pack 2 {lz(_scaled(ls))} {ln(lens)} {co(ln(sidx)) if sidx is not None else 'None'} "
+                                       f"{lz(data)} {ln(bs)}"))
     lps = [_scaled(ls[:lens[n], n]) for n in range(N)]
     hyps = [hyp[:lens[n], n].tolist() for n in range(N)]
     res["spec"].append(("spec_slp_packed", f"spec_slp_okb {cz(TOL)} {cz(V)} None {lz(lps)} {lz(hyps)} {lz(impl)}"))
